@@ -3,6 +3,7 @@
    from the sources (Model.Params.gen_facts), under decidable obligations on that record closed by vm_compute. *)
 From Coq Require Import List ZArith NArith Bool.
 From SudachiVerif Require Import Model.GuardLang Model.Params Proofs.GuardProofs Proofs.ParamsProofs.
+From SudachiVerif Require Import Model.UnkDefText Proofs.UnkDefTextProofs.
 Import ListNotations.
 Open Scope Z_scope.
 
@@ -69,3 +70,118 @@ Theorem C20_forbid_means_existing : forall debug g cfg L,
   l_pos L = pos g /\ forall o k, In o (c_oov cfg) -> In k (pos_keys o) -> In k (pos g).
 Proof. exact (forbid_means_existing gen_facts). Qed.
 Print Assumptions C20_forbid_means_existing.
+
+(* ======================================================================================================================
+   Text layer: the plugin's own readers of the category definitions (char.def) and of unk.def.
+   The records the theorems above take (`Mecab lines allow`) are here PRODUCED from the two texts. *)
+
+(* obligations on the generated shape facts of the two readers: unk.def needs >= 10 comma-separated columns, POS = columns
+   4..10 = POS_DEPTH of them, '#' comments; the integer types of the three numeric columns are those of Guards.v *)
+(* every shape the model of the two readers relies on (loop, trim, skip rules, tokenisers, order of the checks, column -> field,
+   grouping, charDef before unkDef, CategoryType::from_str = bitflags parser) was recognised in the source as it is now *)
+Fact C20_reader_shapes_recognised : UF.unrecognised_shapes = [].
+Proof. vm_compute. reflexivity. Qed.
+
+Fact C20_unk_reader_shape : unk_shape_ok.
+Proof. unfold unk_shape_ok. repeat split; vm_compute; reflexivity. Qed.
+
+Fact C20_charprop_reader_shape :
+  UF.charprop_cols_guard = mkG CastNone CLt (OConst 4) /\ UF.charprop_invoke_col = 1%nat /\ UF.charprop_group_col = 2%nat
+  /\ UF.charprop_length_col = 3%nat /\ UF.charprop_true_literal = [49%N] /\ UF.charprop_length_ty = U32
+  /\ UF.charprop_comment = 35%N /\ UF.charprop_range_prefix = [48%N; 120%N].
+Proof. repeat split; vm_compute; reflexivity. Qed.
+
+(* std decimal parsing, mirrored: an accepted numeric column is [+|-]digits, its value the decimal value, inside the type *)
+Theorem C20_number_column_spec : forall t s z, parse_int t s = Some z ->
+  exists sign ds, s = sign ++ ds /\ ds <> [] /\ forallb is_digit ds = true /\ in_ity t z = true
+    /\ ((sign = [] \/ sign = [43%N]) /\ z = Z.of_N (dec_value ds)
+        \/ (sign = [45%N] /\ ity_min t < 0 /\ z = - Z.of_N (dec_value ds))).
+Proof. exact parse_int_spec. Qed.
+Print Assumptions C20_number_column_spec.
+
+(* every category-definition text is either read into exactly one definition per line that is neither blank, a comment
+   nor a range line -- in order, category = the parsed name(s), invoke/group = (column = "1"), length = decimal value of
+   column 3, no category twice -- or rejected with an error value naming the first offending line, whose defect is one of:
+   fewer than 4 columns, unknown category name, category defined before, length not a u32 *)
+Theorem C20_charprop_text_spec : forall t,
+  match read_character_property t with
+  | CPOk cis => Forall2 cp_row_spec (filter cp_data_line (lines t)) cis /\ NoDup (map ci_cat cis)
+  | CPErr i e =>
+      exists pre raw post before,
+        lines t = pre ++ raw :: post /\ i = N.of_nat (List.length pre)
+        /\ charprop_lines 0 pre [] = CPOk before /\ cp_offending (rev before) raw e
+  end.
+Proof. exact charprop_text_spec. Qed.
+Print Assumptions C20_charprop_text_spec.
+
+(* every unk.def text is either read into exactly one template per line that is neither blank nor a comment -- in order,
+   category defined by the category text, left/right/cost = decimal values of columns 1..3 within i16, POS = columns 4..10 --
+   or rejected with an error value for the first offending line, whose defect is one of: fewer than 10 columns, unknown
+   category name, category not defined, column 1 / 2 / 3 not an i16 *)
+Theorem C20_unk_text_spec : forall cats t,
+  match read_oov_text cats t with
+  | UOk ts => Forall2 (unk_row_spec cats) (filter (unk_data_line cats) (lines t)) ts
+  | UErr i e =>
+      exists pre raw post before,
+        lines t = pre ++ raw :: post /\ i = N.of_nat (List.length pre)
+        /\ unk_lines cats 0 pre [] = UOk before /\ unk_offending cats raw e
+  end.
+Proof. exact unk_text_spec. Qed.
+Print Assumptions C20_unk_text_spec.
+
+(* the lines that yield no record are exactly the blank ones and the comments (and, for the category definitions, the
+   range lines starting with 0x) *)
+Theorem C20_charprop_skipped_lines : forall raw,
+  cp_data_line raw = false <->
+  (trim raw = [] \/ (exists c l, trim raw = c :: l /\ ((c =? UF.charprop_comment)%N || starts_with UF.charprop_range_prefix (c :: l)) = true)).
+Proof. exact cp_data_line_iff. Qed.
+Print Assumptions C20_charprop_skipped_lines.
+
+Theorem C20_unk_skipped_lines : forall cats raw,
+  unk_data_line cats raw = false <-> (trim raw = [] \/ exists l, trim raw = UF.unk_comment :: l).
+Proof. exact unk_data_line_iff. Qed.
+Print Assumptions C20_unk_skipped_lines.
+
+(* the templates of one category are those lines' templates, in file order (oov_list) *)
+Theorem C20_unk_templates_grouped : forall c ts u, In u (templates_of c ts) <-> In u ts /\ u_cat u = c.
+Proof. exact templates_of_in. Qed.
+Print Assumptions C20_unk_templates_grouped.
+
+Theorem C20_unk_template_pos_arity : forall cats raw u, unk_row_spec cats raw u -> List.length (u_pos u) = UF.POS_DEPTH.
+Proof. exact (row_pos_arity C20_unk_reader_shape). Qed.
+Print Assumptions C20_unk_template_pos_arity.
+
+(* the POS key handed to the parameter model is the identity of the six columns *)
+Theorem C20_pos_key_injective : forall a b, Forall valid_text a -> Forall valid_text b -> pos_key a = pos_key b -> a = b.
+Proof. exact pos_key_injective. Qed.
+Print Assumptions C20_pos_key_injective.
+
+(* MeCabOovPlugin::set_up on the two texts (text layer + handle_user_pos + range checks, line by line): acceptance means both
+   texts read, the parameter checks accepted the produced records, and every template has its left id below num_right, its
+   right id below num_left, an i16 cost, POS_DEPTH POS columns, and is stored with exactly the written values *)
+Theorem C20_setup_text_sound : forall g tbl allow cd ud cats ts tbl', wf_gram g ->
+  mecab_setup g tbl allow cd ud = SetupOk cats ts tbl' ->
+  read_character_property cd = CPOk cats
+  /\ read_oov_text (map ci_cat cats) ud = UOk (map fst ts)
+  /\ mecab_lines gen_facts g tbl allow (map to_mecab_line (map fst ts)) = Ok (map snd ts, tbl')
+  /\ Forall (pair_ok g) ts.
+Proof. exact (setup_text_sound gen_facts C20_generated_guards_ok). Qed.
+Print Assumptions C20_setup_text_sound.
+
+(* loads or reports an error value, never panics: covers the text layer *)
+Theorem C20_setup_text_never_panics : forall g tbl allow cd ud, mecab_setup g tbl allow cd ud <> SetupPanic.
+Proof. exact (setup_text_never_panics gen_facts). Qed.
+Print Assumptions C20_setup_text_never_panics.
+
+(* C20_accepted_config_is_valid with the MeCab records produced by the text readers: accepted category definitions +
+   accepted unk.def + an accepted load on a grammar with these dimensions => every id of every template lies within the
+   dimension it is looked up against, every cost is an i16, every POS has POS_DEPTH columns *)
+Theorem C20_accepted_text_config_is_valid : forall debug g inh pre post allow cd ud cats ts L, wf_gram g ->
+  read_character_property cd = CPOk cats ->
+  read_oov_text (map ci_cat cats) ud = UOk ts ->
+  load debug g (mkCfg inh (pre ++ Mecab (map to_mecab_line ts) allow :: post)) = Ok L ->
+  spec_accepts g (mkCfg inh (pre ++ Mecab (map to_mecab_line ts) allow :: post)) = true
+  /\ Forall (fun u => left_id_ok g (u_left u) = true /\ right_id_ok g (u_right u) = true /\ cost_ok (u_cost u) = true
+                      /\ List.length (u_pos u) = UF.POS_DEPTH) ts.
+Proof. exact (accepted_text_config_is_valid gen_facts C20_generated_guards_ok). Qed.
+Print Assumptions C20_accepted_text_config_is_valid.
